@@ -96,6 +96,29 @@ class RegexStub:
             return MatchStub("m_0")
         return None
 
+    def compile(self, pattern=None, flags=0, **kw):
+        """regex.compile(p).search(s) / .finditer(s) are regex.search(p, s) / regex.finditer(p, s) (T-regex; default flags only)"""
+        if flags or kw:
+            raise pyvc.Unsupported("regex.compile with flags is outside the assumed contract T-regex")
+        outer = self
+
+        class _Compiled:
+            def search(self_c, string=None, pos=None, endpos=None, timeout=None, **k2):
+                if pos is not None or endpos is not None:
+                    raise pyvc.Unsupported("compiled.search with pos/endpos")
+                return outer.search(pattern, string, timeout=timeout)
+
+            def finditer(self_c, string=None, pos=None, endpos=None, timeout=None, **k2):
+                if pos is not None or endpos is not None or k2.get("overlapped"):
+                    raise pyvc.Unsupported("compiled.finditer with pos/endpos/overlapped")
+                return outer.finditer(pattern, string, timeout=timeout)
+
+            def __getattr__(self_c, name):
+                if name in ("match", "fullmatch", "findall", "sub", "split"):
+                    return lambda string=None, *a, **k: outer._other(name)(pattern, string)
+                raise pyvc.Unsupported(f"compiled regex .{name} is outside the assumed contract T-regex")
+        return _Compiled()
+
     def _other(self, name):
         def call(pattern=None, string=None, *a, **kw):
             self.log.append((name, pattern, string))
@@ -116,6 +139,9 @@ class LogStub:
         self.sink.append(("info", fmt, a))
 
     def debug(self, *a):
+        pass
+
+    def warning(self, *a):
         pass
 
     def error(self, fmt, *a):
@@ -299,17 +325,21 @@ def first_addr():
     ensure()
     obs: List[Ob] = []
 
-    def fn():
-        a, rest = Name("a"), Name("rest")
-        # a matched text that starts at a record start: address digits (no ':'), "::", anything
-        text = str.__str__(a) + "::" + str.__str__(rest)
-        return [J.consumer.CompleteConsumer.get_first_addr_from_regex_result(text), str.__str__(a)]
-    run = sym_run(fn)
-    for i, p in enumerate(run.paths):
-        ok = p.kind == "ret" and p.value[0] == p.value[1]
-        obs.append(simple_ob(f"get_first_addr_from_regex_result:p{i}:POST", CC + ".get_first_addr_from_regex_result", "POST",
-                             "for text = a '::' rest with a in [0-9a-f]+ (contains no ':'), the result is a",
-                             ok, ["C07", "C12"], detail=repr(p.value), witness=repr(p.value)))
+    for nrec in (1, 2, 3):
+        def fn(nrec=nrec):
+            a = Name("a")
+            # a matched text starts at a record start and covers whole records: address digits (no ':'), "::", the record body, "|",
+            # and possibly further records -- each with its own "::"
+            text = str.__str__(a) + "::" + str.__str__(Name("body1")) + ",|"
+            for k in range(2, nrec + 1):
+                text += str.__str__(Name(f"a{k}")) + "::" + str.__str__(Name(f"body{k}")) + ",|"
+            return [J.consumer.CompleteConsumer.get_first_addr_from_regex_result(text), str.__str__(a)]
+        run = sym_run(fn)
+        for i, p in enumerate(run.paths):
+            ok = p.kind == "ret" and p.value[0] == p.value[1]
+            obs.append(simple_ob(f"get_first_addr_from_regex_result:records={nrec}:p{i}:POST", CC + ".get_first_addr_from_regex_result", "POST",
+                                 f"for a matched text of {nrec} record(s) a '::' body ',|' ... the result is the address a of the FIRST record",
+                                 ok, ["C07", "C12"], detail=repr(p.value), witness=repr(p.value)))
     return obs
 
 
@@ -398,8 +428,8 @@ def modes():
                     J.consumer.regex = RegexStub(relog)
                     J.mobs.logger = LogStub(loglist)
                     J.consumer.logger = LogStub([])
-                    orig_pb = J.match.ProducerBuilder.build
-                    orig_fa = J.consumer.CompleteConsumer.get_first_addr_from_regex_result
+                    orig_pb = vars(J.match.ProducerBuilder)["build"]
+                    orig_fa = vars(J.consumer.CompleteConsumer)["get_first_addr_from_regex_result"]
                     J.match.ProducerBuilder.build = staticmethod(lambda file_type, assembly_style=None: (calls.append(("producer", file_type, assembly_style)), ProducerStub(calls))[1])
                     J.consumer.CompleteConsumer.get_first_addr_from_regex_result = staticmethod(addr_stub)
                     try:
@@ -496,7 +526,7 @@ def returned_value():
 
         def fn(rmode=rmode):
             calls.clear()
-            orig_mo, orig_cb, orig_pb = J.match.MatchedObserver, J.match.ConsumerBuilder.build, J.match.ProducerBuilder.build
+            orig_mo, orig_cb, orig_pb = J.match.MatchedObserver, vars(J.match.ConsumerBuilder)["build"], vars(J.match.ProducerBuilder)["build"]
 
             def mk():
                 holder["mo"] = _ObserverStub()
